@@ -23,19 +23,30 @@ Functions == [kind : {"function"}, ret : RetTypes, name : {"f"}, params : ParamL
 Ctors == [kind : {"ctor"}, scope : {"S"}, explicit : BOOLEAN, params : ParamLists, init : Inits \ {<<"0">>},
           mil : { <<>>, << <<"m_a", "(", "1", ")">> >>, << <<"m_a", "(", "1", ")">>, <<"m_b", "{", "2", "}">> >> }, body : Bodies]
 Dtors == [kind : {"dtor"}, scope : {"S"}, override : BOOLEAN, init : Inits \ {<<"0">>}, body : Bodies]
+NmString == [raw |-> "string", sys |-> <<"string">>, q |-> "\"string\""]
+NmVector == [raw |-> "vector", sys |-> <<"vector">>, q |-> "\"vector\""]
+NmPump == [raw |-> "dzn/pump.hh", sys |-> <<"dzn", "/", "pump", ".", "hh">>, q |-> "\"dzn/pump.hh\""]
+Sections == [kind : {"section"}, spec : {"", "public", "protected", "private"}, lines : {0, 1, 2}]
+IncludeSets == [kind : {"includes"}, system : BOOLEAN,
+                names : { <<NmString>>, <<NmPump, NmVector>>, <<>> }]
+Members == [kind : {"member"}, type : {Int, NsT, CRef, Ptr, Tpl}, name : {"m_x"}]
 Blocks == [kind : {"block"}, ids : { <<>>, <<"A">>, <<"A", "B">>, <<"A", "B", "C">> }, kw : {"struct", "class"},
            lines : {0, 1, 2}]
 
 VARIABLE d
-Init == d \in (CASE Mode = "function" -> Functions [] Mode = "ctor" -> Ctors [] Mode = "dtor" -> Dtors [] OTHER -> Blocks)
+Init == d \in (CASE Mode = "function" -> Functions [] Mode = "ctor" -> Ctors [] Mode = "dtor" -> Dtors
+                 [] Mode = "block" -> Blocks [] OTHER -> Sections \cup IncludeSets \cup Members)
 Next == FALSE
 Spec == Init /\ [][Next]_<<d>>
 
-Laws == d.kind # "block" => SameEntity(d) /\ NoDefWhenInitialised(d)
+Laws == d.kind \in {"function", "ctor", "dtor"} => SameEntity(d) /\ NoDefWhenInitialised(d)
 
 BlockContent(n) == CASE n = 0 -> <<>> [] n = 1 -> <<"int", "x", ";">> [] OTHER -> <<"int", "x", ";", "int", "y", ";">>
 Emit == PrintT(ToJson(
-  IF d.kind = "block"
+  IF d.kind = "section" THEN [d |-> d, toks |-> SectionTok(d.spec, BlockContent(d.lines))]
+  ELSE IF d.kind = "includes" THEN [d |-> d, toks |-> IncludesTok(d.system, d.names)]
+  ELSE IF d.kind = "member" THEN [d |-> d, toks |-> MemberTok(d.type, d.name)]
+  ELSE IF d.kind = "block"
   THEN [d |-> d, ns |-> NamespaceTok(d.ids, BlockContent(d.lines)), st |-> StructTok(d.kw, "S", BlockContent(d.lines))]
   ELSE [d |-> d, valid |-> Valid(d), decl |-> IF Valid(d) THEN Decl(d) ELSE <<>>, def |-> IF Valid(d) THEN Def(d) ELSE <<>>]))
 =============================================================================
